@@ -99,13 +99,6 @@ Definition monitor_failures (cs : list case) : list (N * list N) :=
     | c :: t => match dedup_N (monitor c) with [] => go (N.succ i) t | cl => (i, cl) :: go (N.succ i) t end
     end in go 0%N cs.
 
-(* the hypothesis of C04_selection_is_documented_precedence_*: a directive without a block has no children, at every depth *)
-Fixpoint wf_deepb (fuel : nat) (ns : list node) : bool :=
-  match fuel with
-  | O => false
-  | S f => forallb (fun n => match n with Node _ _ _ blk ch => (blk || match ch with [] => true | _ => false end) && wf_deepb f ch end) ns
-  end.
-
 Definition tag (c : case) : N :=
   (if c_loaded c then 1 else 0)
   + (if existsb (fun mm => match obs_of (fst mm) with (None, _) => true | _ => false end) (c_msgs c) then 2 else 0)
